@@ -23,6 +23,9 @@ LINKS = {
   14: '1 44100 40 150000 15 sig=3',
   15: '2 22050 70 2500 16',
   16: '1 48000 20 257 17',
+  17: '2 44100 30 20000 18 bs0=6',
+  18: '1 22050 10 6000 19 bs0=7',
+  19: '2 44100 30 6000 20',
 }
 FILES = {
   'A': '0',
@@ -42,6 +45,10 @@ FILES = {
   'O': '1',
   'P': '6:ppp=1 6:s=8:ppp=2 6:s=9 6:s=10:ppp=3 6:s=11 6:s=12:ppp=1,2',
   'Q': '5:pad=3=66000:pad=4=66000 0:ppp=1',
+  'R': '17:ppp=2 1',
+  'S': '0:ppp=3 17 18:ppp=1',
+  'T': '19 6',
+  'U': '19:ppp=2',
 }
 
 def links_of(fkey):
@@ -150,6 +157,18 @@ def run_batch(pid, tier, scenarios, bindir, extra_prelude=None, nproc=None, dmg_
     return out
 
 # ---------------------------------------------------------------- known findings
+SPANPKT_FILES = {'H','Q'}     # files holding packets that span pages
+
+def _pred_early_page_landing(v, scn):
+    """page-granularity seek succeeded, landed at or before the target and the audio is consistent, but earlier than the
+       last page boundary before the target; only on streams with page-spanning packets"""
+    e = v.get('event', {})
+    if e.get('ret') != 0: return False
+    tgt = e.get('pos', e.get('expect'))
+    if tgt is None: return False
+    return e.get('tell', 1<<40) <= tgt and any(f in SPANPKT_FILES for f in scn.files)
+PREDS = {'early_page_landing': _pred_early_page_landing}
+
 def kf_matches(entry, v, scn):
     """entry['key'] = 'rule=R;family~regex;ev=E;ret=N' ; all given parts must match."""
     for part in entry.get('key','').split(';'):
@@ -163,6 +182,8 @@ def kf_matches(entry, v, scn):
             k, val = part.split('=',1)
             if k == 'rule':
                 if val not in v['rules']: return False
+            elif k == 'pred':
+                if not PREDS[val](v, scn): return False
             elif k == 'ev':
                 if v.get('ev') != val: return False
             elif k == 'tag':
